@@ -157,8 +157,10 @@ impl Space for Main {
         }
         let lens = self.lengths(&cfg);
         let names = colliding_names(lens.len(), 32, 7);
-        let files: Vec<(String, Vec<u8>)> =
+        let mut files: Vec<(String, Vec<u8>)> =
             lens.iter().enumerate().map(|(k, &l)| (names[k].clone(), gen::content(gen::TEXTURES[t], l, cfg.sector(), k as u64))).collect();
+        // one name with non-ASCII characters (the MPQ hash folds ASCII only)
+        files.push(("Dir\\\u{dc}n\u{ef}-c\u{f6}d\u{e9} \u{b5}.txt".to_string(), gen::content(gen::TEXTURES[t], 7, cfg.sector(), 99)));
         let path = self.scratch.path(&format!("a{i}.mpq"));
         let build = |fs: &[(String, Vec<u8>)]| {
             let mut b = cfg.builder();
